@@ -1,3 +1,4 @@
+import _pickle
 import pickle
 
 import fickling.hook as hook
@@ -9,8 +10,12 @@ class FicklingContextManager:
     def __init__(self, max_acceptable_severity=Severity.LIKELY_SAFE):
         self.original_pickle_load = pickle.load
         self.max_acceptable_severity = max_acceptable_severity
+        self._saved_hooks = None
 
     def __enter__(self):
+        # remember every entry point the hooks can rebind, so that leaving the context restores
+        # exactly the protection (or absence of it) that was in force on entry
+        self._saved_hooks = (pickle.load, pickle.loads, _pickle.load, _pickle.loads)
         # Modify the `hook_pickle_load` function to use the imported loader
         wrapped_load = lambda file, *args, **kwargs: loader.load(  # noqa
             file, max_acceptable_severity=self.max_acceptable_severity
@@ -19,7 +24,7 @@ class FicklingContextManager:
         return self
 
     def __exit__(self, exc_type, exc_val, exc_tb):
-        pickle.load = self.original_pickle_load
+        pickle.load, pickle.loads, _pickle.load, _pickle.loads = self._saved_hooks
 
 
 def check_safety():
